@@ -151,15 +151,19 @@ func gcForm(res string) string {
 	if !strings.HasPrefix(res, "panic:") {
 		return res
 	}
+	// (gc contracts two links only when they hold the identical interface value: always for
+	// our integer constants and for a re-panic, not for two separately raised index errors;
+	// both sides are therefore compared with every run of equal values contracted)
+	val := func(l string) string { return strings.TrimSuffix(strings.TrimSuffix(l, "r"), "R") }
 	links := strings.Split(strings.TrimPrefix(res, "panic:"), ",")
 	var out []string
 	for i := 0; i < len(links); i++ {
-		v := strings.TrimSuffix(links[i], "r")
+		v := val(links[i])
 		j := i
-		for j+1 < len(links) && strings.TrimSuffix(links[j+1], "r") == v {
+		for j+1 < len(links) && val(links[j+1]) == v {
 			j++
 		}
-		if j > i {
+		if j > i || strings.HasSuffix(links[i], "R") {
 			out = append(out, v+"R")
 		} else {
 			out = append(out, links[i])
